@@ -20,7 +20,7 @@ impl Property for Prop {
         "C16"
     }
     fn rule(&self) -> &'static str {
-        "histories: a receiver state (15 recipes (and, one history in 64, a 256-slot memory with an unfinished train on every fragment id) incl. unfinished trains on every slot, full / empty free list, remembered label, aliasing ids) is driven through a seeded prefix of 1..200 hostile buffers (random bytes, structured headers, mutated valid packets, wrong CRC / length / frag id, unfinished trains; one buffer in five continues with another hostile packet or random bytes after the packet), storage being provisioned at random points (one buffer, or until the memory reports that it is full); then: reset label memory; provision one buffer through the decapsulator or directly through its public memory field (Ok or 'free list full' both fine); probe 1 = valid complete packet with an explicit label (delivered buffer given back); probe 2 = valid fragmented PDU of 2..5 fragments on a seeded fragment id (half of them ids with an unfinished train or aliasing one; all 256 reachable) and label kind, built by the real encapsulator (or hand-made when the sender is unusable). A decap call of the prefix that panics is a violation (the sequence of calls cannot be completed: the caller is left without a decapsulator); non-trivial = conclusive with a prefix of at least 1 packet that was not all padding; fingerprint = hash(state, prefix bytes, probe parameters)."
+        "histories: a receiver state (15 recipes (and, one history in 64, a 256-slot memory with an unfinished train on every fragment id) incl. unfinished trains on every slot, full / empty free list, remembered label, aliasing ids) is driven through a seeded prefix of 1..200 hostile buffers (random bytes, structured headers, mutated valid packets, wrong CRC / length / frag id, unfinished trains; one buffer in five continues with another hostile packet or random bytes after the packet), storage being provisioned at random points (one buffer, or until the memory reports that it is full); then: reset label memory; provision one buffer through the decapsulator or directly through its public memory field (Ok or 'free list full' both fine); probe 1 = valid complete packet with an explicit label, half of them with one optional extension header (exactly the probe's extensions must be reported; delivered buffer given back); probe 2 = valid fragmented PDU of 2..5 fragments on a seeded fragment id (half of them ids with an unfinished train or aliasing one; all 256 reachable) and label kind, built by the real encapsulator (or hand-made when the sender is unusable or would need more than 8 fragments), reported without extensions; one history in three ends with the SHADOW of probe 2's first fragment (same id, total length, type, label and size, other payload bytes); one receiver in three is constructed with max_pdu_frag = 8. A decap call of the prefix that panics is a violation (the sequence of calls cannot be completed: the caller is left without a decapsulator); non-trivial = conclusive with a prefix of at least 1 packet that was not all padding; fingerprint = hash(state, prefix bytes, probe parameters)."
     }
     fn gens(&self, cx: &Cx) -> Vec<Gen> {
         vec![Gen { name: "histories", count: cx.n(30_000, 2_000_000), exhaustive: false }]
@@ -52,7 +52,53 @@ impl Property for Prop {
             return;
         }
         let pool = Pool::new(&mut rng);
-        let mut d = st.instantiate();
+        // one receiver in three is built with max_pdu_frag = 8 (the probes never need more than 8 fragments)
+        let max_pdu_frag = if key % 3 == 1 { 8 } else { 0 };
+        let mut d = st.instantiate_ex(max_pdu_frag);
+        // probe 2 is drawn now (from a forked generator) so that the history can end with its SHADOW: a first
+        // fragment with the same fragment id, total length, type, label and size but other payload bytes
+        let mut prng = rng.clone();
+        let _ = prng.next();
+        // probe 2: fragmented PDU on any fragment id and label kind
+        // half of the probes land on a fragment id that is likely to have an unfinished train (the state's
+        // open ids, the ids used by the hostile traffic pool) or on an id aliasing one of them
+        let frag_id = if prng.chance(1, 2) {
+            let mut busy: Vec<u8> = st.open_ids.clone();
+            busy.extend([5u8, 1, 0, 9, 200, 77]);
+            let b = busy[prng.below(busy.len())];
+            match prng.below(3) {
+                0 => b,
+                1 => b.wrapping_add(st.slots as u8),
+                _ => b.wrapping_sub(st.slots as u8),
+            }
+        } else {
+            prng.byte()
+        };
+        let plen2 = 1 + prng.below(st.pdu_size.max(2) - 1).min(st.pdu_size.saturating_sub(1));
+        let plen2 = plen2.min(st.pdu_size).max(1);
+        let pdu2 = prng.bytes(plen2);
+        let lk2 = prng.below(5);
+        let label2 = gen_label(&mut prng, lk2);
+        let nfrag = 2 + prng.below(4);
+        let fr = FastRef::new();
+        let mut cuts: Vec<usize> = (0..nfrag - 1).map(|_| prng.below(plen2 + 1)).collect();
+        cuts.sort_unstable();
+        // use the real encapsulator when it works, otherwise the hand-made train
+        let mut enc = Encapsulator::new(DefaultCrc {});
+        let meta = EncapMetadata::new(0x86DD, label2);
+        let first_buf = 13 + cuts[0].min(plen2.saturating_sub(1));
+        let mut r2 = prng.clone();
+        let built = build_train(&mut enc, &pdu2, frag_id, meta, None, |i| if i == 0 { first_buf } else { 8 + r2.below(plen2 + 8) }, 64);
+        let pkts: Vec<Vec<u8>> = match built {
+            Ok(t) if t.complete && t.pkts.len() >= 2 && t.pkts.len() <= 8 => {
+                rep.count("c16.probe2-from-encapsulator");
+                t.pkts
+            }
+            _ => {
+                rep.count("c16.probe2-hand-made");
+                mk_train(&fr, lt_of_label(&label2), &label_bytes(&label2), frag_id, 0x86DD, &pdu2, &cuts)
+            }
+        };
         let nmax = if rng.chance(1, 10) { 200 } else { 40 };
         let n = 1 + rng.below(nmax);
         let mut h = 0u64;
@@ -119,6 +165,22 @@ impl Property for Prop {
             return;
         }
         rep.count("c16.conclusive");
+        if rng.chance(1, 3) {
+            // the history ends with the shadow of probe 2's first fragment (same header fields and size, other payload)
+            let mut shadow = pkts[0].clone();
+            let l = shadow.len();
+            if l > 16 {
+                for b in shadow[l - 3..].iter_mut() {
+                    *b ^= 0x5A;
+                }
+                rep.eval();
+                if dec_guard(&mut d, &shadow).is_err() {
+                    rep.violation("C16", format!("history-call-panicked:shadow:{}", st.name), || "decap panicked on the shadow first fragment".to_string(), &replay);
+                    return;
+                }
+                rep.count("c16.shadow-first-fragment");
+            }
+        }
         // ---- recovery protocol
         d.reset_last_label();
         // the caller makes one buffer available, through the decapsulator or directly through its (public) memory
@@ -136,11 +198,19 @@ impl Property for Prop {
         let lk = rng.below(4);
         let label1 = gen_label(&mut rng, lk);
         let lb = label_bytes(&label1);
-        let pk1 = mk_complete(lt_of_label(&label1), &lb, 0x0800, &pdu1);
+        // half of the probes carry one optional extension header: exactly that one must be reported (nothing the
+        // history left behind), and none when the probe has none
+        let probe_ext: Vec<crate::wire::ExtEntry> = if rng.chance(1, 2) { vec![crate::wire::ExtEntry { id: 0x0200 | rng.byte() as u16, data: rng.bytes(2) }] } else { vec![] };
+        let pk1 = crate::wire::serialise(&crate::wire::Fields { kind: crate::wire::Kind::Complete, lt: lt_of_label(&label1), frag_id: 0, total_len: 0, ptype: 0x0800, label: &lb, exts: &probe_ext, final_ext: false, payload: &pdu1, crc: 0 });
         rep.eval();
         let r1 = dec_guard(&mut d, &pk1);
+        let ext_ok = |m: &dvb_gse_rust::gse_decap::DecapMetadata| -> bool {
+            let got: Vec<(u16, usize)> = m.extensions().iter().map(|e| (e.id(), e.len() - 2)).collect();
+            let want: Vec<(u16, usize)> = probe_ext.iter().map(|e| (e.id, e.data.len())).collect();
+            got == want
+        };
         match &r1 {
-            Ok(Ok((DecapStatus::CompletedPkt(b, m), c))) if *c == pk1.len() && m.pdu_len() == plen1 && b[..plen1] == pdu1[..] && m.label() == label1 && m.protocol_type() == 0x0800 => {}
+            Ok(Ok((DecapStatus::CompletedPkt(b, m), c))) if *c == pk1.len() && m.pdu_len() == plen1 && b[..plen1] == pdu1[..] && m.label() == label1 && m.protocol_type() == 0x0800 && ext_ok(m) => {}
             other => {
                 rep.violation("C16", format!("probe1-complete-packet:{}", cls), || format!("after a {}-packet hostile prefix in state {}, reset + one provisioned buffer, the valid complete packet {} was not delivered correctly: {}", n, st.name, hex_short(&pk1, 40), dec_res_str(other)), &replay);
                 return;
@@ -154,54 +224,15 @@ impl Property for Prop {
                 let _ = d.memory.provision_storage(b);
             }
         }
-        // probe 2: fragmented PDU on any fragment id and label kind
-        // half of the probes land on a fragment id that is likely to have an unfinished train (the state's
-        // open ids, the ids used by the hostile traffic pool) or on an id aliasing one of them
-        let frag_id = if rng.chance(1, 2) {
-            let mut busy: Vec<u8> = st.open_ids.clone();
-            busy.extend([5u8, 1, 0, 9, 200, 77]);
-            let b = busy[rng.below(busy.len())];
-            match rng.below(3) {
-                0 => b,
-                1 => b.wrapping_add(st.slots as u8),
-                _ => b.wrapping_sub(st.slots as u8),
-            }
-        } else {
-            rng.byte()
-        };
-        let plen2 = 1 + rng.below(st.pdu_size.max(2) - 1).min(st.pdu_size.saturating_sub(1));
-        let plen2 = plen2.min(st.pdu_size).max(1);
-        let pdu2 = rng.bytes(plen2);
-        let lk2 = rng.below(5);
-        let label2 = gen_label(&mut rng, lk2);
-        let nfrag = 2 + rng.below(4);
-        let fr = FastRef::new();
-        let mut cuts: Vec<usize> = (0..nfrag - 1).map(|_| rng.below(plen2 + 1)).collect();
-        cuts.sort_unstable();
-        // use the real encapsulator when it works, otherwise the hand-made train
-        let mut enc = Encapsulator::new(DefaultCrc {});
-        let meta = EncapMetadata::new(0x86DD, label2);
-        let first_buf = 13 + cuts[0].min(plen2.saturating_sub(1));
-        let mut r2 = rng.clone();
-        let built = build_train(&mut enc, &pdu2, frag_id, meta, None, |i| if i == 0 { first_buf } else { 8 + r2.below(plen2 + 8) }, 64);
-        let pkts: Vec<Vec<u8>> = match built {
-            Ok(t) if t.complete && t.pkts.len() >= 2 => {
-                rep.count("c16.probe2-from-encapsulator");
-                t.pkts
-            }
-            _ => {
-                rep.count("c16.probe2-hand-made");
-                mk_train(&fr, lt_of_label(&label2), &label_bytes(&label2), frag_id, 0x86DD, &pdu2, &cuts)
-            }
-        };
+        // probe 2 (drawn before the history, see above)
         let np = pkts.len();
         for (i, p) in pkts.iter().enumerate() {
             rep.eval();
             let r = dec_guard(&mut d, p);
             let last = i + 1 == np;
             let ok = match &r {
-                Ok(Ok((DecapStatus::FragmentedPkt(m), c))) if !last => *c == p.len() && m.label() == label2,
-                Ok(Ok((DecapStatus::CompletedPkt(b, m), c))) if last => *c == p.len() && m.pdu_len() == plen2 && b[..plen2] == pdu2[..] && m.label() == label2 && m.protocol_type() == 0x86DD,
+                Ok(Ok((DecapStatus::FragmentedPkt(m), c))) if !last => *c == p.len() && m.label() == label2 && m.extensions().is_empty(),
+                Ok(Ok((DecapStatus::CompletedPkt(b, m), c))) if last => *c == p.len() && m.pdu_len() == plen2 && b[..plen2] == pdu2[..] && m.label() == label2 && m.protocol_type() == 0x86DD && m.extensions().is_empty(),
                 _ => false,
             };
             if !ok {
